@@ -401,9 +401,85 @@ fn build_command(req: &Req) -> Command {
     }
 }
 
+/// the data item names an RFC 3501 / RFC 7162 / Gmail reference server knows, mapped to the
+/// generator kind of `ATTRS` (or to a literal reply item for names the builder does not offer today)
+fn server_item(name: &str) -> Option<Result<usize, &'static [u8]>> {
+    Some(match name {
+        "BODY" => Ok(0),
+        "ENVELOPE" => Ok(1),
+        "FLAGS" => Ok(2),
+        "INTERNALDATE" => Ok(3),
+        "MODSEQ" => Ok(4),
+        "RFC822" => Ok(5),
+        "RFC822.SIZE" => Ok(6),
+        "RFC822.TEXT" => Ok(7),
+        "UID" => Ok(8),
+        "X-GM-LABELS" => Ok(9),
+        "X-GM-MSGID" => Ok(10),
+        "BODYSTRUCTURE" => Err(b"BODYSTRUCTURE (\"TEXT\" \"PLAIN\" NIL NIL NIL \"7BIT\" 1 1)"),
+        "RFC822.HEADER" => Err(b"RFC822.HEADER {3}\r\na\r\n"),
+        "X-GM-THRID" => Err(b"X-GM-THRID 1278455344230334865"),
+        _ => return None,
+    })
+}
+
+/// what the reference server understands the request to ask for: the data item names in the
+/// command text (macros expanded per RFC 3501 6.4.5)
+fn names_in_command(args: &[u8]) -> Option<Vec<String>> {
+    let text = std::str::from_utf8(args).ok()?;
+    // `FETCH <set> <items> [modifiers]` or `UID FETCH <set> <items> [modifiers]`
+    let text = text.strip_prefix("UID ").unwrap_or(text);
+    let rest = text.splitn(3, ' ').nth(2)?;
+    let items: Vec<String> = if let Some(inner) = rest.strip_prefix('(') {
+        let end = inner.find(')')?;
+        inner[..end].split(' ').map(|x| x.to_string()).collect()
+    } else {
+        vec![rest.split(' ').next()?.to_string()]
+    };
+    let mut out = vec![];
+    for it in items {
+        match it.as_str() {
+            "ALL" => out.extend(["FLAGS", "INTERNALDATE", "RFC822.SIZE", "ENVELOPE"].iter().map(|x| x.to_string())),
+            "FAST" => out.extend(["FLAGS", "INTERNALDATE", "RFC822.SIZE"].iter().map(|x| x.to_string())),
+            "FULL" => out.extend(["FLAGS", "INTERNALDATE", "RFC822.SIZE", "ENVELOPE", "BODY"].iter().map(|x| x.to_string())),
+            "" => return None,
+            _ => out.push(it),
+        }
+    }
+    Some(out)
+}
+
 fn eval_request(ctx: &mut Ctx, rng: &mut Rng, req: &Req, thorough: bool) {
     let cmd = build_command(req);
-    let items = items_of_request(req);
+    // the reference server answers what the command text asks for
+    let names = match names_in_command(&cmd.args) {
+        Some(n) => n,
+        None => {
+            ctx.fail("request-unreadable", format!("the builder emits {} which is not a FETCH request a server can read", show_bytes(&cmd.args)), vec![]);
+            return;
+        }
+    };
+    let mut items: Vec<usize> = vec![];
+    let mut extras: Vec<&'static [u8]> = vec![];
+    for n in &names {
+        match server_item(n) {
+            Some(Ok(i)) => items.push(i),
+            Some(Err(raw)) => extras.push(raw),
+            None => {
+                ctx.fail("unknown-item", format!("the builder emits {} : data item {} is not defined by RFC 3501 / 7162 / the Gmail extensions", show_bytes(&cmd.args), n), vec![]);
+                return;
+            }
+        }
+    }
+    // and it must be what the caller asked for: one item per requested attribute
+    let asked = items_of_request(req);
+    if extras.is_empty() && items != asked {
+        ctx.fail(
+            "request-differs",
+            format!("the builder emits {} for a request of {:?}", show_bytes(&cmd.args), asked.iter().map(|&i| ATTRS[i].0).collect::<Vec<_>>()),
+            vec![],
+        );
+    }
     let cfg = GenCfg {
         max_depth: if thorough { 3 } else { 2 },
         adversarial: false,
@@ -411,7 +487,9 @@ fn eval_request(ctx: &mut Ctx, rng: &mut Rng, req: &Req, thorough: bool) {
         max_lit: 40,
     };
     let s = rng.next_u64();
-    let built = std::panic::catch_unwind(|| {
+    let items2 = items.clone();
+    let built = std::panic::catch_unwind(move || {
+        let items = items2;
         let mut r = Rng::new(s);
         let mut vals: Vec<AttributeValue<'static>> = vec![];
         for &i in &items {
@@ -453,6 +531,29 @@ fn eval_request(ctx: &mut Ctx, rng: &mut Rng, req: &Req, thorough: bool) {
             reply.push(wire[i]);
             i += 1;
         }
+    }
+    if !extras.is_empty() {
+        // items the builder asks for beyond its own attribute table: the server answers them too
+        let tail = b")\r\n";
+        if reply.ends_with(tail) {
+            reply.truncate(reply.len() - tail.len());
+            for e in &extras {
+                if !reply.ends_with(b"(") {
+                    reply.push(b' ');
+                }
+                reply.extend_from_slice(e);
+            }
+            reply.extend_from_slice(tail);
+        }
+        let out = ctx.eval(&reply, "fetch-reply");
+        if !out.starts_with(&format!("OK {} ", reply.len())) {
+            ctx.fail(
+                "reply-rejected",
+                format!("the builder emits {} ; a conformant reply {} is parsed as {}", show_bytes(&cmd.args), show_bytes(&reply), clip(&out, 200)),
+                vec![format!("parse {}", hex(&reply))],
+            );
+        }
+        return;
     }
     let out = ctx.eval(&reply, "fetch-reply");
     ctx.log.nontrivial(&hex(&reply));
